@@ -106,14 +106,31 @@ class AssignmentManager(AssignmentManagerBase):
             -> Tuple[DesignVector, IsActiveVector]:
         """Correct the design vector so that it matches an existing connection pattern"""
         imputed_vector, _ = self._encoder.get_matrix(vector, existence=existence)
+        imputed_vector = self._mark_inactive(imputed_vector, existence)
         return self._correct_is_active(imputed_vector)
 
     def get_matrix(self, vector: DesignVector, existence: NodeExistence = None) \
             -> Tuple[DesignVector, IsActiveVector, np.ndarray]:
         """Get connection matrix from a given design vector"""
         imputed_vector, matrix = self._encoder.get_matrix(vector, existence=existence)
+        imputed_vector = self._mark_inactive(imputed_vector, existence)
         imputed_vector, is_active = self._correct_is_active(imputed_vector)
         return imputed_vector, is_active, matrix
+
+    def _mark_inactive(self, vector: DesignVector, existence: NodeExistence = None) -> DesignVector:
+        """If a design vector directly maps to a matrix, the encoder returns it as provided: mark the design
+        variables that are inactive for that matrix (as is done for imputed design vectors)"""
+        i_mat, existence = self._encoder.get_matrix_index(vector, existence=existence)
+        if i_mat is None:
+            return vector
+
+        stored_vector = self._encoder.get_stored_design_vector(i_mat, existence)
+        if stored_vector is None:
+            return vector
+        vector = list(vector)
+        for i_dv in np.where(stored_vector[:len(vector)] == X_INACTIVE_VALUE)[0]:
+            vector[i_dv] = X_INACTIVE_VALUE
+        return vector
 
     def get_conn_idx(self, vector: DesignVector, existence: NodeExistence = None) \
             -> Tuple[DesignVector, IsActiveVector, Optional[List[Tuple[int, int]]]]:
